@@ -16,6 +16,13 @@ type DocSpec struct {
 	// NoNS: the document is navigated through a second navigator implementation
 	// that has no NamespaceURL() method
 	NoNS bool `json:"no_ns,omitempty"`
+	// TextName: text and comment nodes report their data as LocalName (as
+	// xmlquery's navigator does) instead of ""
+	TextName bool `json:"text_name,omitempty"`
+	// ShallowValue: the Value() of an element is the concatenation of its own
+	// trimmed text children only (as the package's test navigator does), not of
+	// all descendant text
+	ShallowValue bool `json:"shallow_value,omitempty"`
 }
 
 // Count returns the number of nodes including the root and attributes.
@@ -46,7 +53,7 @@ func (x *NodeSpec) clone() *NodeSpec {
 
 func (d DocSpec) Clone() DocSpec {
 	var o DocSpec
-	o.NoNS = d.NoNS
+	o.NoNS, o.TextName, o.ShallowValue = d.NoNS, d.TextName, d.ShallowValue
 	for _, c := range d.C {
 		o.C = append(o.C, c.clone())
 	}
@@ -55,8 +62,8 @@ func (d DocSpec) Clone() DocSpec {
 
 var (
 	ElemNames = []string{"a", "b", "c", "a", "b", "a-1", "x:a", "d", "y:b"}
-	AttrNames = []string{"id", "k", "id", "x:k", "n", "xml:lang"}
-	Values    = []string{"1", "2", "21", "3", "3.5", "-1", "0", "abc", "ab", "b", "a", "", " ", " a  b ", "NaN", "1e2", "10", "aXb", "Abc", "é", "中a"}
+	AttrNames = []string{"id", "k", "id", "x:k", "n", "xml:lang", "a", "b"}
+	Values    = []string{"1", "2", "21", "3", "3.5", "-1", "0", "abc", "ab", "b", "a", "", " ", " a  b ", "NaN", "1e2", "10", "aXb", "Abc", "é", "中a", "-0", ".5", "+1", " 7 "}
 	NSURLs    = []string{"", "", "urn:x", "urn:y"}
 )
 
